@@ -14,19 +14,24 @@ import (
 	"helm.sh/helm/v4/verifh/sim"
 )
 
-// errClass classifies what an op returned: ok | exists | pending | name-in-use | other.
+// errClass classifies what an op returned: ok | exists | pending | name-in-use | no-release | other.
+// no-release ("has no deployed releases") is what an upgrade answers when there is nothing to
+// upgrade; it is a legitimate refusal only in runs that started from an empty ledger.
 func errClass(err error) string {
 	if err == nil {
 		return "ok"
 	}
 	m := err.Error()
 	switch {
-	case errors.Is(err, driver.ErrReleaseExists) || strings.Contains(m, "already exists"):
+	case errors.Is(err, driver.ErrReleaseExists) || strings.Contains(m, driver.ErrReleaseExists.Error()):
+		// the release record exists (not: some cluster resource already exists)
 		return "exists"
 	case strings.Contains(m, "another operation (install/upgrade/rollback) is in progress"):
 		return "pending"
 	case strings.Contains(m, "a name that is still in use"):
 		return "name-in-use"
+	case strings.Contains(m, "has no deployed releases"):
+		return "no-release"
 	}
 	return "other"
 }
@@ -41,6 +46,10 @@ var (
 // normErr strips names and numbers from an error text.
 func normErr(m string) string {
 	m = reQuoted.ReplaceAllString(m, `"…"`)
+	for _, r := range sim.Resources {
+		m = strings.ReplaceAll(m, r.Kind, "<Kind>")
+		m = strings.ReplaceAll(m, r.Plural, "<kind>")
+	}
 	m = reNum.ReplaceAllString(m, "N")
 	if len(m) > 140 {
 		m = m[:140]
@@ -65,7 +74,7 @@ type judged struct {
 
 // judge evaluates the C09 clauses over the request log, the op results and the raw ledger.
 // ops[i].agent are the tags of the concurrent ops. scen is only used in witness details.
-func judge(res *core.Result, w *env.World, ops []opRun, scen, driverKind, word string) judged {
+func judge(res *core.Result, w *env.World, ops []opRun, scen, driverKind, word string, emptyStart bool) judged {
 	log := w.Sim.Log()
 	byAgent := map[string]*opRun{}
 	for i := range ops {
@@ -87,6 +96,7 @@ func judge(res *core.Result, w *env.World, ops []opRun, scen, driverKind, word s
 		labels = append(labels, opLabel(o.op))
 	}
 	sort.Strings(labels)
+	labels = uniq(labels)
 	combo := strings.Join(labels, " ‖ ")
 	var outs []string
 	for _, o := range ops {
@@ -126,6 +136,7 @@ func judge(res *core.Result, w *env.World, ops []opRun, scen, driverKind, word s
 		}
 	}
 	// clause double-create: a revision key is successfully created more than once
+	party := map[*opRun]bool{}
 	var keys []string
 	for k := range creates {
 		keys = append(keys, k)
@@ -135,6 +146,7 @@ func judge(res *core.Result, w *env.World, ops []opRun, scen, driverKind, word s
 		cs := creates[k]
 		for n := 1; n < len(cs); n++ {
 			first, second := cs[n-1], cs[n]
+			party[first.o], party[second.o] = true, true
 			cause := "no delete in between (create-if-absent is not atomic)"
 			for _, ev := range events {
 				if ev.e.Seq > first.e.Seq && ev.e.Seq < second.e.Seq && ev.e.Class == "storage" && ev.e.Method == "DELETE" && ev.e.Name == k && ev.e.Code == 200 {
@@ -154,29 +166,6 @@ func judge(res *core.Result, w *env.World, ops []opRun, scen, driverKind, word s
 				"revision record %s was successfully created by %s (seq %d) and again by %s (seq %d) | %s", k, first.o.agent, first.e.Seq, second.o.agent, second.e.Seq, detail())
 		}
 	}
-	// clause record-overwritten-by-other-op: a successful PUT on a record whose current incarnation
-	// was created in this run by another op that is still in flight
-	seenOW := map[string]bool{}
-	for _, ev := range events {
-		if ev.e.Class != "storage" || ev.e.Method != "PUT" || ev.e.Code != 200 {
-			continue
-		}
-		var cur *write
-		for i := range creates[ev.e.Name] {
-			if c := &creates[ev.e.Name][i]; c.e.Seq < ev.e.Seq {
-				cur = c
-			}
-		}
-		if cur == nil || cur.o == ev.o || !inFlight(cur.o, ev.e.Seq) {
-			continue
-		}
-		cls := fmt.Sprintf("%s overwrites the in-flight revision record created by a concurrent %s", opLabel(ev.o.op), opLabel(cur.o.op))
-		if seenOW[cls] {
-			continue
-		}
-		seenOW[cls] = true
-		res.Add("record-overwritten-by-other-op", cls, "%s updated %s (seq %d), which %s had created (seq %d) and was still working on | %s", ev.o.agent, ev.e.Name, ev.e.Seq, cur.o.agent, cur.e.Seq, detail())
-	}
 	// per-op clauses
 	for i := range ops {
 		o := &ops[i]
@@ -195,7 +184,7 @@ func judge(res *core.Result, w *env.World, ops []opRun, scen, driverKind, word s
 				res.Add("success-without-own-revision", fmt.Sprintf("%s returned nil after %d successful record creates", opLabel(o.op), len(own)),
 					"%s reported success but created %d revision records | %s", o.agent, len(own), detail())
 			}
-		case isLockErr(o.class):
+		case isLockErr(o.class) || (o.class == "no-release" && emptyStart && o.op.Kind == "upgrade"):
 			for _, ev := range events {
 				if ev.o == o && ev.e.Class == "mutation" && ev.e.Code >= 200 && ev.e.Code < 300 {
 					res.Add("loser-changed-release-resource", fmt.Sprintf("%s failed with %s after %s of a %s", opLabel(o.op), o.class, ev.e.Method, ev.e.Kind),
@@ -205,7 +194,7 @@ func judge(res *core.Result, w *env.World, ops []opRun, scen, driverKind, word s
 			}
 		default:
 			// neither success nor a lock error
-			shape := normErr(o.err.Error())
+			shape := ""
 			for _, c := range own {
 				// was the op's own record deleted under it by somebody else?
 				for _, ev := range events {
@@ -218,6 +207,38 @@ func judge(res *core.Result, w *env.World, ops []opRun, scen, driverKind, word s
 					}
 				}
 			}
+			if shape == "" && party[o] {
+				shape = "it proceeded although a concurrent op had successfully created the same revision (see double-create)"
+			}
+			if shape == "" {
+				// the op's last rejected call
+				for i := len(events) - 1; i >= 0; i-- {
+					ev := events[i]
+					if ev.o != o || ev.e.Code < 400 {
+						continue
+					}
+					what := ev.e.Class + " " + ev.e.Method + " of a " + ev.e.Kind
+					if ev.e.Class == "storage" {
+						role := "pre-existing revision record"
+						if ev.e.Name == "" {
+							role = "record list"
+						}
+						for _, c := range creates[ev.e.Name] {
+							if c.o == o {
+								role = "revision record it had created"
+							} else if role == "pre-existing revision record" {
+								role = "revision record created by a concurrent op"
+							}
+						}
+						what = "storage " + ev.e.Method + " of a " + role
+					}
+					shape = fmt.Sprintf("last rejected call was %s -> %d; error %s", what, ev.e.Code, normErr(o.err.Error()))
+					break
+				}
+			}
+			if shape == "" {
+				shape = normErr(o.err.Error())
+			}
 			res.Add("op-failed-with-other-error", fmt.Sprintf("%s: %s", opLabel(o.op), shape),
 				"%s failed with %q, which is neither already-exists, operation-in-progress nor name-in-use | %s", o.agent, o.err, detail())
 		}
@@ -226,6 +247,16 @@ func judge(res *core.Result, w *env.World, ops []opRun, scen, driverKind, word s
 	recs, bad := w.Ledger(relName)
 	ref.LedgerBasic(res, recs, bad, "after concurrent "+combo, detail)
 	return j
+}
+
+func uniq(xs []string) []string {
+	var out []string
+	for i, x := range xs {
+		if i == 0 || x != xs[i-1] {
+			out = append(out, x)
+		}
+	}
+	return out
 }
 
 func outStr(err error) string {
